@@ -284,6 +284,22 @@ def run_container(P, pid, cspec, tier, seed):
                 elif soft:
                     if len(out["fidelity"]) < 2:
                         out["fidelity"].append((bname, container, chunk[h], soft))
+    if cspec.get("plain_pass"):
+        # the same histories on a build WITHOUT sanitizers: ASan's quarantine prevents the allocator
+        # from handing a freed address out again, which hides bugs keyed on address reuse
+        try:
+            pr = Runner(container, opts, plain=True)
+            sample = corp + rnd[: cspec.get("plain_n", 200)]
+            for h, diffs in pr.run(sample):
+                rel = [d for d in diffs if relevant(P, container, d)]
+                hard = [d for d in rel if d.layer in ("L1", "L2")]
+                if hard and len(out["violations"]) < 2:
+                    out["violations"].append(("plain-build", container, sample[h], hard))
+                elif rel and not hard and len(out["fidelity"]) < 2:
+                    out["fidelity"].append(("plain-build", container, sample[h], rel))
+            batches.append(("plain-build (no sanitizer)", sample))
+        except Exception as e:
+            out["problems"].append(f"{container}/plain: {str(e)[:200]}")
     if cspec.get("valgrind") and tier == "thorough":
         # uninitialised reads / invalid frees that ASan does not see: memcheck over corpus + a sample
         try:
